@@ -43,7 +43,16 @@ def big_instances(tu, name):
     return out
 
 
-def gen_bigmul(tu, name):
+def cfg_tu(tu, wb):
+    return tu if wb == 64 else U.get_tu(tu, "w32", U.SHARED["workdir"])
+
+
+def cfg_consts(tu, wb):
+    return U.SHARED.get("consts") if wb == 64 else U.get_consts_variant(tu, "w32", U.SHARED["workdir"])
+
+
+def gen_bigmul(tu, name, wb=64):
+    tu = cfg_tu(tu, wb)
     qs = big_instances(tu, name)
     if not qs:
         import jast
@@ -51,7 +60,7 @@ def gen_bigmul(tu, name):
     for q in qs:
         def run(path, q=q):
             f = tu.func(q)
-            dom = WordDomain(consts=U.SHARED.get("consts"))
+            dom = WordDomain(consts=cfg_consts(tu, wb), word_bits=wb)
             I = Interp(tu, dom)
             I.path = path
             this = I.new_object(f.record.qname)
@@ -66,23 +75,24 @@ def gen_bigmul(tu, name):
             want = vals[0] * (vals[1] if len(vals) > 1 else vals[0]) if name in ("multiply", "square") else None
             got = dom.value(this)
             D = dom.reduce_eq(want - got)
-            top = 1 << (64 * dom.nwords(this.type))
+            top = 1 << (wb * dom.nwords(this.type))
             exact = D.is_zero()
             dropped = (not exact) and all(c % top == 0 for c in D.t.values()) and carry_sum(Poly({m: c // top for m, c in D.t.items()}))
             # a carry out of the top word that the code drops: VAL(self) + c * 2^bits == a*b exactly, a*b < 2^bits and VAL(self) >= 0 force c == 0
-            fits = all(dom.nwords(a.type) for a in args) and sum(64 * dom.nwords(a.type) for a in args) * (2 if len(args) == 1 else 1) <= 64 * dom.nwords(this.type)
+            fits = all(dom.nwords(a.type) for a in args) and sum(wb * dom.nwords(a.type) for a in args) * (2 if len(args) == 1 else 1) <= wb * dom.nwords(this.type)
             obs = [chk("%s: VAL(self) == %s (exact, all operands%s)" % (q, "VAL(a) * VAL(b)" if len(vals) > 1 else "VAL(a)^2", "; the carry dropped above the top word is 0 because the product fits" if dropped else ""),
                        exact or (dropped and fits), "difference %r" % D),
-                   chk("%s: every result word written and below 2^64" % q, all(w is not POISON and wv(w).hi < (1 << 64) for w in dom.words(this)))]
+                   chk("%s: every result word written and below 2^%d" % (q, wb), all(w is not POISON and wv(w).hi < (1 << wb) for w in dom.words(this)))]
             for a in args:
                 obs.append(chk("%s: operand unchanged" % q, all(isinstance(w, WVal) and w.p.degree() == 1 and len(w.p.t) == 1 for w in dom.words(a))))
             return obs
         yield q, guarded(run)
 
 
-def gen_mont(tu, fname, op):
+def gen_mont(tu, fname, op, wb=64):
+    tu = cfg_tu(tu, wb)
     bits, p = MODS[fname]
-    n = bits // 64
+    n = bits // wb
     Rm = 1 << bits
     F = FQN[fname]
     cands = [q for q, f in tu.by_qname.items() if f.body is not None and f.record is not None and f.record.qname == F and f.name == op]
@@ -108,7 +118,7 @@ def gen_mont(tu, fname, op):
             if not oc:
                 import jast
                 raise jast.ExtractionError("FpBase<%d>::reduce not found" % bits)
-            dom = WordDomain(consts=U.SHARED.get("consts"), obj_contracts=oc)
+            dom = WordDomain(consts=cfg_consts(tu, wb), obj_contracts=oc, word_bits=wb)
             I = Interp(tu, dom)
             I.path = path
             res = I.new_object(F)
@@ -140,13 +150,13 @@ def gen_mont(tu, fname, op):
                 ab_max = (p - 1) * (p - 1)
             if "T_words" not in seen:
                 return [chk("%s::%s reaches FpBase::reduce" % (fname, op), False, "reduce was not called")]
-            T = sum((wv(w).p * (1 << (64 * i)) for i, w in enumerate(seen["T_words"])), Poly())
+            T = sum((wv(w).p * (1 << (wb * i)) for i, w in enumerate(seen["T_words"])), Poly())
             # the last value of meta_carry is the carry symbol of the final new_sum; recover T_full from the identity instead of the local:
             # T_full * R - AB must be p * U with U = sum u_i 2^(64 i); the u_i are the truncated word products of the n rows
             us = dom.trunc_products[-n:] if len(dom.trunc_products) >= n else []
-            Upoly = sum((wv(u).p * (1 << (64 * i)) for i, u in enumerate(us)), Poly())
+            Upoly = sum((wv(u).p * (1 << (wb * i)) for i, u in enumerate(us)), Poly())
             D = dom.reduce_eq(AB + Upoly * p - T * Rm)           # == meta_carry_final * 2^bits * R  when the code is right
-            obs = [chk("%s::%s [%s]: one truncated word product per row (the multipliers u_i)" % (fname, op, pat), len(us) == n and all(wv(u).hi < (1 << 64) for u in us))]
+            obs = [chk("%s::%s [%s]: one truncated word product per row (the multipliers u_i)" % (fname, op, pat), len(us) == n and all(wv(u).hi < (1 << wb) for u in us))]
             # D must be (carry symbol) * 2^(2*bits): a single carry symbol with bound <= 1..2, or zero
             mc_ok, mc = False, None
             if D.is_zero():
@@ -178,7 +188,7 @@ def gen_consts(tu):
         for fname, (bits, p) in MODS.items():
             pre = "fq" if fname == "Fq" else "fr"
             inv = c.value(pre + "_inv_var") % (1 << 64)
-            obs.append(chk("%s: modulus constant == reference prime, inv * p == -1 (mod 2^64), 2p <= 2^%d" % (fname, bits), c.value(pre + "_modulus_var") == p and (inv * p + 1) % (1 << 64) == 0 and 2 * p <= (1 << bits)))
+            obs.append(chk("%s: modulus constant == reference prime, inv * p == -1 (mod 2^64) (hence also mod 2^32 for the 32-bit-word configuration), 2p <= 2^%d" % (fname, bits), c.value(pre + "_modulus_var") == p and (inv * p + 1) % (1 << 64) == 0 and 2 * p <= (1 << bits)))
         return obs
     yield "closed facts", guarded(run)
 
@@ -238,6 +248,16 @@ def units():
             u = ScenUnit("%s::%s: Montgomery identity T*R == A*B + U*p, T < 2p, result = reduce(T) (word level)" % (fname, op), P, (lambda tu, fname=fname, op=op: gen_mont(tu, fname, op)), targets=[], contracts_used=lower)
             u.back_end = "WORD"
             u.replay_hook = _replay
+            us.append(u)
+    P32 = ["C03", "C02"]
+    for name in ("multiply", "square"):
+        u = ScenUnit("BigInt::%s (portable C++ with 32-bit words, every instance): exact product, word level" % name, P32, (lambda tu, name=name: gen_bigmul(tu, name, 32)), targets=[])
+        u.back_end = "WORD"
+        us.append(u)
+    for fname in ("Fq", "Fr"):
+        for op in ("multiply", "square", "montgomery_reduce"):
+            u = ScenUnit("%s::%s (32-bit words): Montgomery identity T*R == A*B + U*p, T < 2p, result = reduce(T) (word level)" % (fname, op), P32, (lambda tu, fname=fname, op=op: gen_mont(tu, fname, op, 32)), targets=[], contracts_used=lower)
+            u.back_end = "WORD"
             us.append(u)
     u = ScenUnit("Montgomery constants (word level)", P, gen_consts, targets=[])
     u.back_end = "WORD"
